@@ -1519,6 +1519,12 @@ class LuaMinifyTokenWriter(BaseLuaWriter):
         )
         self._last_was_name_keyword_number = False
         self._last_was_newline = True
+        self._last_code = b''
+
+    def _would_glue(self, code):
+        """Whether code, written right after the previous token, would read as
+        a different token: a - -b, t[ [[k]] ], x .. ..., x .. .5"""
+        return (self._last_code[-1:] + code[:1]) in (b'--', b'[[', b'..')
 
     def to_lines(self):
         """
@@ -1561,10 +1567,12 @@ class LuaMinifyTokenWriter(BaseLuaWriter):
                     yield b' '
                 self._last_was_name_keyword_number = True
                 self._last_was_newline = False
+                self._last_code = token.code
                 yield self._name_factory.get_short_name(token.code)
             elif token.matches(lexer.TokLabel):
                 self._last_was_name_keyword_number = False
                 self._last_was_newline = False
+                self._last_code = token.code
                 yield (
                     b'::' +
                     self._name_factory.get_short_name(token.code[2:-2]) +
@@ -1574,16 +1582,24 @@ class LuaMinifyTokenWriter(BaseLuaWriter):
                     yield b' '
                 self._last_was_name_keyword_number = True
                 self._last_was_newline = False
+                self._last_code = token.code
                 yield token.code
             elif token.matches(lexer.TokNumber):
-                if self._last_was_name_keyword_number:
+                if (self._last_was_name_keyword_number or
+                        (not self._last_was_newline and
+                         self._would_glue(token.code))):
                     yield b' '
                 self._last_was_name_keyword_number = True
                 self._last_was_newline = False
+                self._last_code = token.code
                 yield token.code
             else:
+                if (not self._last_was_newline and
+                        self._would_glue(token.code)):
+                    yield b' '
                 self._last_was_name_keyword_number = token.code in b'])}'
                 self._last_was_newline = False
+                self._last_code = token.code
                 yield token.code
 
 
